@@ -71,3 +71,76 @@ Proof. unfold poly_ops. destruct p as [x y]. cbn [fst snd]. destruct closed; cbn
 
 Theorem poly_empty closed : poly_ops closed [] = [].
 Proof. reflexivity. Qed.
+
+(* parsePoly: consecutive pairs; "if the attribute contains an odd number of
+   coordinates, the last one will be ignored" *)
+From Coq Require Import ZArith Lia.
+From Verif Require Import Base.GoSem Geom.SvgPathProofs.
+
+Fixpoint pairs (l : list Q) : list (Q * Q) :=
+  match l with
+  | a :: b :: r => (a, b) :: pairs r
+  | _ => []
+  end.
+
+Lemma pairs_length : forall k l, (length l <= k)%nat -> (2 * length (pairs l) <= length l)%nat /\ (length l <= 2 * length (pairs l) + 1)%nat.
+Proof.
+  induction k; intros l H.
+  - destruct l; cbn in *; [lia|lia].
+  - destruct l as [|a [|b r]]; cbn [pairs length] in *; try lia.
+    destruct (IHk r); lia.
+Qed.
+
+Lemma poly_loop (pts : list Q) : forall (k : nat) (rest pre : list Q) (acc : list (Q * Q)) (fuel : nat),
+  (length rest <= k)%nat -> pts = pre ++ rest -> (length pre = 2 * (length pre / 2))%nat ->
+  (length (pairs rest) <= fuel)%nat ->
+  for_z fuel (Z.of_nat (length pre / 2)) (Z.quot (Z.of_nat (length pts)) 2) 1
+    (fun i acc => let* x := index 160 pts (2 * i) in
+                  let* y := index 161 pts (2 * i + 1) in Ok ((x, y) :: acc)) acc
+  = Ok (rev (pairs rest) ++ acc).
+Proof.
+  induction k; intros rest pre acc fuel Hk Hp Hpre Hf.
+  - destruct rest; [|cbn in Hk; lia]. cbn [pairs rev app].
+    rewrite app_nil_r in Hp. subst pts.
+    assert (Z.quot (Z.of_nat (length pre)) 2 = Z.of_nat (length pre / 2)).
+    { rewrite Z.quot_div_nonneg by lia. rewrite Nat2Z.inj_div. reflexivity. }
+    rewrite H. destruct fuel; cbn [for_z]; rewrite Z.ltb_irrefl; reflexivity.
+  - destruct rest as [|a [|b r]].
+    + apply (IHk [] pre acc fuel); [cbn; lia|assumption|assumption|assumption].
+    + (* one coordinate left: ignored *)
+      cbn [pairs rev app]. subst pts. rewrite app_length. cbn [length].
+      assert (Z.quot (Z.of_nat (length pre + 1)) 2 = Z.of_nat (length pre / 2)).
+      { rewrite Z.quot_div_nonneg by lia.
+        replace (Z.of_nat (length pre + 1)) with (1 + Z.of_nat (length pre / 2) * 2)%Z by lia.
+        rewrite Z.div_add by lia. reflexivity. }
+      rewrite H. destruct fuel; cbn [for_z]; rewrite Z.ltb_irrefl; reflexivity.
+    + cbn [pairs rev length] in *.
+      assert (Hq : (Z.of_nat (length pre / 2) < Z.quot (Z.of_nat (length pts)) 2)%Z).
+      { subst pts. rewrite app_length. cbn [length]. rewrite Z.quot_div_nonneg by lia.
+        replace (Z.of_nat (length pre + S (S (length r)))) with (Z.of_nat (length r) + (Z.of_nat (length pre / 2) + 1) * 2)%Z by lia.
+        rewrite Z.div_add by lia. pose proof (Z.div_pos (Z.of_nat (length r)) 2). lia. }
+      destruct fuel as [|fuel]; [lia|]. cbn [for_z].
+      destruct (Z.ltb_spec (Z.of_nat (length pre / 2)) (Z.quot (Z.of_nat (length pts)) 2)); [|lia].
+      rewrite Hp at 1.
+      rewrite (index_at 160 pre a (b :: r)) by lia. cbn [bind].
+      rewrite Hp at 1.
+      replace (pre ++ a :: b :: r) with ((pre ++ [a]) ++ b :: r) by (rewrite <- app_assoc; reflexivity).
+      rewrite (index_at 161 (pre ++ [a]) b r) by (rewrite app_length; cbn [length]; lia). cbn [bind].
+      specialize (IHk r (pre ++ [a; b]) ((a, b) :: acc) fuel).
+      rewrite app_length in IHk. cbn [length] in IHk.
+      assert (Hd : ((length pre + 2) / 2 = length pre / 2 + 1)%nat).
+      { replace (length pre + 2)%nat with (length pre + 1 * 2)%nat by lia. rewrite Nat.div_add by lia. reflexivity. }
+      rewrite Hd in IHk.
+      replace (Z.of_nat (length pre / 2) + 1)%Z with (Z.of_nat (length pre / 2 + 1)) by lia.
+      rewrite IHk; [rewrite <- app_assoc; reflexivity|lia|rewrite Hp, <- app_assoc; reflexivity|lia|lia].
+Qed.
+
+Theorem parse_poly_spec cv d :
+  parse_poly cv d = let* r := parse_points cv false d in Ok (option_map pairs r).
+Proof.
+  unfold parse_poly. destruct (parse_points cv false d) as [[pts|]| |]; cbn [bind]; try reflexivity.
+  destruct (pairs_length (length pts) pts (le_n _)) as [P1 P2].
+  pose proof (poly_loop pts (length pts) pts [] [] (S (length pts)) (le_n _) eq_refl eq_refl ltac:(lia)) as H.
+  cbn [length Nat.div Nat.divmod fst Z.of_nat] in H. rewrite H. cbn [bind option_map].
+  rewrite app_nil_r, rev_involutive. reflexivity.
+Qed.
